@@ -1,10 +1,244 @@
-"""Curated vocabulary of real instructions (stub, filled in below)."""
-from mc import core
+"""Curated vocabulary of real x86 / AArch64 instructions with architecturally known operand
+roles (written down from the architecture manuals, not read from OSACA's ISA database), used by
+C03 part (b): the dependency graph on *shipped* ISA databases and models must be the
+read-after-write relation over these roles."""
+import itertools
+import traceback
+
+from mc import core, drive, dgfam
+from mc.ref import dg as RD
+from mc.ref import regs as RR
+
+_MODELS = {}
+X86_FLAGS = ("CF", "OF", "SF", "ZF", "AF", "PF")
+
+
+def R(isa, n):
+    c = RR.class_of(isa, n.split(".")[0])
+    assert c, n
+    return c
+
+
+def F(*names):
+    return {("flag", n) for n in names}
+
+
+def x86_vocab():
+    """list of (text, reads, writes, flags_certain) - flags_certain: the flag roles are
+    unambiguous in the manual, so the instruction may take part in the flags=True runs"""
+    V = []
+    allf = F(*X86_FLAGS)
+    regs = ["rax", "rbx", "ecx"]
+    full = {"rax": "rax", "rbx": "rbx", "ecx": "rcx"}
+
+    def r(n):
+        return R("x86", n)
+
+    for a, b in itertools.permutations(regs, 2):
+        sa, sb = "%" + a, "%" + b
+        suf = "l" if "e" == a[0] or "e" == b[0] else "q"
+        if (a[0] == "e") != (b[0] == "e"):
+            continue  # mixed widths are not valid operand pairs
+        V.append(("mov%s %s, %s" % (suf, sa, sb), {r(a)}, {r(b)}, True))
+        V.append(("add%s %s, %s" % (suf, sa, sb), {r(a), r(b)}, {r(b)} | allf, True))
+        V.append(("sub%s %s, %s" % (suf, sa, sb), {r(a), r(b)}, {r(b)} | allf, True))
+        V.append(("cmp%s %s, %s" % (suf, sa, sb), {r(a), r(b)}, set(allf), True))
+        V.append(("imul%s %s, %s" % (suf, sa, sb), {r(a), r(b)}, {r(b)}, False))
+        V.append(("xor%s %s, %s" % (suf, sa, sb), {r(a), r(b)}, {r(b)}, False))
+        # cmov: OSACA's ISA database models the destination as write-only (the architectural
+        # false dependency on the old destination value is not claimed here)
+        V.append(("cmovne%s %s, %s" % (suf, sa, sb), {r(a)} | F("ZF"), {r(b)}, True))
+    for a in ("rax", "rbx"):
+        sa = "%" + a
+        V.append(("addq $8, %s" % sa, {r(a)}, {r(a)} | allf, True))
+        V.append(("subq $8, %s" % sa, {r(a)}, {r(a)} | allf, True))
+        V.append(("incq %s" % sa, {r(a)}, {r(a)} | F("OF", "SF", "ZF", "AF", "PF"), True))
+        V.append(("decq %s" % sa, {r(a)}, {r(a)} | F("OF", "SF", "ZF", "AF", "PF"), True))
+        V.append(("xorq %s, %s" % (sa, sa), set(), {r(a)}, False))   # zero idiom
+        V.append(("shlq $3, %s" % sa, {r(a)}, {r(a)}, False))
+        V.append(("leaq 8(%s,%%rcx,8), %%rdx" % sa, {r(a), r("rcx")}, {r("rdx")}, True))
+        V.append(("movq (%s), %%rdx" % sa, {r(a)}, {r("rdx")}, True))
+        V.append(("movq %%rdx, 64(%s)" % sa, {r(a), r("rdx")}, set(), True))
+        V.append(("addq %%rdx, 128(%s)" % sa, {r(a), r("rdx")}, set(allf), True))
+    V.append(("jne .L1", F("ZF"), set(), True))
+    for x, y, z in (("xmm1", "xmm2", "xmm3"), ("xmm3", "xmm1", "xmm1"), ("ymm1", "ymm2", "ymm2")):
+        V.append(("vaddpd %%%s, %%%s, %%%s" % (x, y, z), {r(x), r(y)}, {r(z)}, True))
+        V.append(("vfmadd231pd %%%s, %%%s, %%%s" % (x, y, z), {r(x), r(y), r(z)}, {r(z)}, True))
+        V.append(("vmulpd %%%s, %%%s, %%%s" % (x, y, z), {r(x), r(y)}, {r(z)}, True))
+    V.append(("vxorpd %xmm2, %xmm2, %xmm2", set(), {r("xmm2")}, True))   # zero idiom
+    V.append(("vxorpd %xmm1, %xmm2, %xmm3", {r("xmm1"), r("xmm2")}, {r("xmm3")}, True))
+    V.append(("vmovapd (%rax), %ymm2", {r("rax")}, {r("ymm2")}, True))
+    V.append(("vmovapd %ymm2, 256(%rbx)", {r("rbx"), r("ymm2")}, set(), True))
+    V.append(("vaddpd 512(%rax), %xmm1, %xmm2", {r("rax"), r("xmm1")}, {r("xmm2")}, True))
+    return V
+
+
+A64_FLAGS = ("N", "Z", "C", "V")
+
+
+def a64_vocab():
+    V = []
+
+    def r(n):
+        return R("aarch64", n)
+
+    nzcv = None  # flag naming of the ISA database is not architectural: flags=False only
+    for a, b, c in (("x1", "x2", "x3"), ("x3", "x1", "x1"), ("w1", "w2", "w3")):
+        V.append(("mov %s, %s" % (a, b), {r(b)}, {r(a)}, False))
+        V.append(("add %s, %s, %s" % (a, b, c), {r(b), r(c)}, {r(a)}, False))
+        V.append(("sub %s, %s, %s" % (a, b, c), {r(b), r(c)}, {r(a)}, False))
+        V.append(("add %s, %s, #8" % (a, b), {r(b)}, {r(a)}, False))
+        V.append(("mul %s, %s, %s" % (a, b, c), {r(b), r(c)}, {r(a)}, False))
+        V.append(("madd %s, %s, %s, %s" % (a, b, c, a), {r(a), r(b), r(c)}, {r(a)}, False))
+        V.append(("cmp %s, %s" % (a, b), {r(a), r(b)}, set(), False))
+    for a, b, c in (("d1", "d2", "d3"), ("d3", "d1", "d1")):
+        V.append(("fadd %s, %s, %s" % (a, b, c), {r(b), r(c)}, {r(a)}, False))
+        V.append(("fmul %s, %s, %s" % (a, b, c), {r(b), r(c)}, {r(a)}, False))
+        V.append(("fmadd %s, %s, %s, %s" % (a, b, c, a), {r(a), r(b), r(c)}, {r(a)}, False))
+    V.append(("fadd v1.2d, v2.2d, v3.2d", {r("v2"), r("v3")}, {r("v1")}, False))
+    V.append(("fmla v1.2d, v2.2d, v3.2d", {r("v1"), r("v2"), r("v3")}, {r("v1")}, False))
+    V.append(("fmla v3.2d, v1.2d, v1.2d", {r("v1"), r("v3")}, {r("v3")}, False))
+    for base in ("x2", "x3"):
+        V.append(("ldr x1, [%s, #8]" % base, {r(base)}, {r("x1")}, False))
+        V.append(("ldr d1, [%s, x4]" % base, {r(base), r("x4")}, {r("d1")}, False))
+        V.append(("ldr x1, [%s], #2048" % base, {r(base)}, {r("x1"), r(base)}, False))
+        V.append(("ldr q1, [%s, #4096]!" % base, {r(base)}, {r("q1"), r(base)}, False))
+        V.append(("str x1, [%s, #16]" % base, {r(base), r("x1")}, set(), False))
+        V.append(("str d3, [%s], #1024" % base, {r(base), r("d3")}, {r(base)}, False))
+        V.append(("ldp x1, x4, [%s], #512" % base, {r(base)}, {r("x1"), r("x4"), r(base)}, False))
+        V.append(("stp x1, x4, [%s, #-256]!" % base, {r(base), r("x1"), r("x4")}, {r(base)},
+                  False))
+    V.append(("b.ne .L1", set(), set(), False))
+    return V
+
+
+def _wb_set(isa, text, writes):
+    """write-back registers: base of a pre/post-indexed access"""
+    if isa != "aarch64" or ("]!" not in text and "], #" not in text):
+        return set()
+    base = text[text.index("[") + 1:].split(",")[0].split("]")[0].strip()
+    return {R(isa, base)}
+
+
+def _kernel_case(item):
+    isa, arch, idxs, flags = item
+    V = _VOC[isa]
+    mm, sem = _MODELS[arch]
+    out = {"bad": [], "n": 0, "amb": 0, "sig": None}
+    texts_ = [V[i][0] for i in idxs]
+    if any(t.startswith("addq %rdx, 128(") and texts_.count(t) > 1 for t in texts_):
+        return item, out  # the same read-modify-write twice is a store->load pair (C06 owns it)
+    try:
+        ris = []
+        for i in idxs:
+            text, reads, writes, _ = V[i]
+            ris.append(RD.RI(text, reads, writes, wb=_wb_set(isa, text, writes), tag=text.split()[0]))
+        parser, kernel = dgfam.parsed_kernel(isa, [r.text for r in ris])
+        sem.add_semantics(kernel)
+        g = drive.KernelDG.__new__(drive.KernelDG)
+        g.timed_out = False
+        g.kernel, g.parser, g.model, g.arch_sem = kernel, parser, mm, sem
+        g.dg = g.create_DG(kernel, flags)
+        for r, k in zip(ris, kernel):
+            r.lat_exec = float(k.latency_wo_load if k.latency_wo_load is not None else k.latency)
+            r.lat = float(k.latency)
+        idx = {k.line_number: i for i, k in enumerate(kernel)}
+        got = {}
+        for a, b, d in g.dg.edges(data=True):
+            if a != int(a):
+                continue
+            got[(idx[a], idx[b])] = float(d["latency"])
+        p_idx = float(mm.get("p_index_latency", 1))
+        exp = RD.raw_edges(ris, flags, p_idx)
+        for e in sorted(set(got) | set(exp)):
+            out["n"] += 1
+            i, j = e
+            if e not in got:
+                out["bad"].append(("missing", "no edge %r -> %r" % (ris[i].text, ris[j].text)))
+            elif e not in exp:
+                out["bad"].append(("spurious", "edge %r -> %r (weight %s) but the consumer reads "
+                                   "nothing the producer writes last" % (ris[i].text, ris[j].text,
+                                                                        got[e])))
+            else:
+                if len(exp[e]) > 1:
+                    out["amb"] += 1
+                # memory forms may carry the full latency when a store-load edge coincides
+                if not any(abs(got[e] - w) < 1e-9 for w in exp[e]):
+                    out["bad"].append(("weight", "edge %r -> %r weight %s, expected %s"
+                                       % (ris[i].text, ris[j].text, got[e], sorted(exp[e]))))
+        out["sig"] = tuple(sorted(got))
+    except Exception:
+        out["bad"].append(("exception", traceback.format_exc()[-1200:]))
+    return item, out
+
+
+_VOC = {}
 
 
 def run_part(ctx, part):
-    return core.Result()
+    res = core.Result()
+    _VOC["x86"] = x86_vocab()
+    _VOC["aarch64"] = a64_vocab()
+    archs = {"x86": ["zen1"], "aarch64": ["tx2"]}
+    if ctx.thorough:
+        archs = {"x86": drive.shipped_archs("x86"), "aarch64": drive.shipped_archs("aarch64")}
+    names = archs["x86"] + archs["aarch64"]
+    drive.stage_and_parse(ctx, names + ["isa/x86", "isa/aarch64"])
+    for a in names:
+        mm = drive.MachineModel(arch=a)
+        _MODELS[a] = (mm, drive.ArchSemantics(mm))
+    items = []
+    for isa in ("x86", "aarch64"):
+        V = _VOC[isa]
+        dgfam.warm_parse_cache(isa, [v[0] for v in V])
+        n = len(V)
+        certain = [i for i in range(n) if V[i][3]]
+        for k, arch in enumerate(archs[isa]):
+            pairs = list(itertools.product(range(n), repeat=2))
+            if k > 0:
+                pairs = pairs[::7]
+            items += [(isa, arch, p, False) for p in pairs]
+            if isa == "x86":
+                fp = list(itertools.product(certain, repeat=2))
+                if k > 0:
+                    fp = fp[::7]
+                items += [(isa, arch, p, True) for p in fp]
+            if k == 0:
+                mids = list(range(0, n, 5))
+                outer = list(range(0, n, 3))
+                items += [(isa, arch, (i, m, j), False) for i in outer for m in mids
+                          for j in outer]
+    out = core.pmap(_kernel_case, core.rotate(items, ctx.seed))
+    for (isa, arch, idxs, flags), o in out:
+        res.states += 1
+        res.traces += 1
+        res.transitions += o["n"]
+        res.unspecified += o["amb"]
+        res.outcomes.add(hash(o["sig"]))
+        if o["sig"]:
+            res.nontrivial += 1
+        texts = [_VOC[isa][i][0] for i in idxs]
+        for kind, what in o["bad"]:
+            res.violations.append(core.Violation(
+                {"part": "real-vocabulary", "kind": kind, "isa": isa, "flags": flags,
+                 "consumer": what.split("->")[-1].strip().strip("'").split()[0]
+                 if "->" in what else ""},
+                "[%s on %s flags=%s] kernel %r: %s" % (isa, arch, flags, texts, what),
+                {"part": "real-vocabulary", "isa": isa, "arch": arch, "idxs": list(idxs),
+                 "flags": flags, "kernel": texts, "what": what}))
+    res.add_sample({"real_vocabulary_kernel": [_VOC["x86"][1][0], _VOC["x86"][20][0]]})
+    res.extra["real_vocabulary_sizes"] = {k: len(v) for k, v in _VOC.items()}
+    return res
 
 
 def replay(ctx, payload):
-    return 0
+    r = payload["replay"]
+    _VOC["x86"] = x86_vocab()
+    _VOC["aarch64"] = a64_vocab()
+    drive.stage_and_parse(ctx, [r["arch"], "isa/x86", "isa/aarch64"])
+    mm = drive.MachineModel(arch=r["arch"])
+    _MODELS[r["arch"]] = (mm, drive.ArchSemantics(mm))
+    _, o = _kernel_case((r["isa"], r["arch"], tuple(r["idxs"]), r["flags"]))
+    for b in o["bad"]:
+        print(b)
+    return 1 if o["bad"] else 0
